@@ -712,6 +712,57 @@ func TestC09Range(t *testing.T) {
 			}
 		}
 
+		// ... and once more after the caller wrote other values into the
+		// lists of its "in" conditions (the same filter object, the same list
+		// objects): the filter is read as it is now.
+		if tree != nil {
+			edited := false
+
+			walkLeaves(tree, argFilter, func(n *gen.FNode, lf *jsonapi.Filter) {
+				if old, ok := lf.Val.([]string); ok && n.Op == "in" && len(old) > 0 {
+					none := make([]string, len(old))
+					for i := range none {
+						none[i] = fmt.Sprintf("zz-none-%d", i)
+					}
+
+					n.Val = none
+					copy(old, none)
+					edited = true
+				}
+			})
+
+			if edited {
+				var all jsonapi.Collection
+
+				if p := oracle.Try(func() {
+					all = jsonapi.Range(buildCollection(impl, &ts, items), nil, argFilter, argRules, uint(len(items)+1), 0)
+				}); p != nil {
+					t.Fatalf("C09 violated: Range %s (filter with edited in lists)\ncase: %s", p, desc)
+				}
+
+				want := []string{}
+
+				for _, it := range items {
+					vals := map[string]any{"id": it.id}
+					for k, v := range it.vals {
+						vals[k] = v
+					}
+
+					if oracle.EvalFilter(tree, &ts, vals) {
+						want = append(want, it.id)
+					}
+				}
+
+				got := idsOf(all)
+				sort.Strings(got)
+				sort.Strings(want)
+
+				if !reflect.DeepEqual(got, want) {
+					t.Fatalf("C09 violated: after the lists of the filter's in conditions were overwritten in place Range gives %q, the filter now allows %q\ncase: %s\nfilter now: %s", got, want, desc, tree)
+				}
+			}
+		}
+
 		nonID := 0
 		tie := false
 
